@@ -1,4 +1,5 @@
 import SkgVerif.Lemmas.Edges
+import SkgVerif.Lemmas.Median
 /-!
 # C02 — lag edges are well-formed and honour n_lags and maxlag
 -/
@@ -121,6 +122,16 @@ theorem C02_resolve (ds : List Rat) (v : Rat) :
   refine ⟨rfl, ?_, ?_, rfl, rfl⟩
   · intro h; simp [resolveMaxlag, h]
   · intro h; simp [resolveMaxlag, not_lt.2 h]
+
+/-- `maxlag='median'` resolves to the 50th percentile of the distances, which lies within the
+data: the effective maximum lag is that median itself -/
+theorem C02_resolve_median (ds : List Rat) (hne : ds ≠ []) :
+    ∃ m, resolveMaxlag .median ds = some m ∧ m = quantile ds (1 / 2) ∧ effMax (some m) ds = m := by
+  refine ⟨quantile ds (1 / 2), ?_, rfl, ?_⟩
+  · simp only [resolveMaxlag]; exact median_eq_quantile_half ds hne
+  · obtain ⟨_, ⟨b, hb, hqb⟩⟩ := C02_quantile_within ds hne (q := 1 / 2) (by norm_num)
+    have : quantile ds (1 / 2) ≤ maxR ds := le_trans hqb (le_maxR ds b hb)
+    simp only [effMax, gt_iff_lt, not_lt.2 this, if_false]
 
 /-- the effective maximum lag never exceeds the largest distance, equals the requested value
 whenever that is not larger, and the largest distance when nothing is requested -/
